@@ -16,7 +16,6 @@
 package verifrt
 
 import (
-	"unsafe"
 	"fmt"
 	"hash/fnv"
 	"reflect"
@@ -28,6 +27,7 @@ import (
 	"testing"
 	"testing/synctest"
 	"time"
+	"unsafe"
 )
 
 type gstate int
@@ -128,20 +128,20 @@ func (o *op) where() string {
 
 // G is one goroutine under the scheduler.
 type G struct {
-	id      int
-	path    string // deterministic identity: parent path + "." + spawn index
-	pathH   uint64
-	name    string
-	state   gstate
-	inOp    bool // released into its operation and not yet through it
-	op      *op
-	wake    chan int // scheduler -> goroutine: the decision (alternative index)
-	hash    uint64
-	arrived int64
-	stamped bool
+	id         int
+	path       string // deterministic identity: parent path + "." + spawn index
+	pathH      uint64
+	name       string
+	state      gstate
+	inOp       bool // released into its operation and not yet through it
+	op         *op
+	wake       chan int // scheduler -> goroutine: the decision (alternative index)
+	hash       uint64
+	arrived    int64
+	stamped    bool
 	wasBlocked bool // found blocked inside its operation by the scheduler
-	spawned int
-	exec    *Exec
+	spawned    int
+	exec       *Exec
 }
 
 // Verdict of one execution.
@@ -187,19 +187,19 @@ type Exec struct {
 	MaxSteps  int
 	Steps     int
 
-	Unmodelled  int // goroutines found blocked outside a modelled operation
-	Divergences int // model said ready/not ready and the runtime disagreed
-	conns       []*Conn
-	Trace       []string // filled when TraceOn
-	TraceOn     bool
-	objCount    uint64
-	panicVal    string
-	spawnCount  int
+	Unmodelled    int // goroutines found blocked outside a modelled operation
+	Divergences   int // model said ready/not ready and the runtime disagreed
+	conns         []*Conn
+	Trace         []string // filled when TraceOn
+	TraceOn       bool
+	objCount      uint64
+	panicVal      string
+	spawnCount    int
 	mapDescending bool
-	exitedKey   uint64 // state-key contribution of goroutines that have exited (removed from gs)
-	CollectKeys bool
-	invariant   func() string // evaluated by the scheduler in every quiescent state
-	TimeJumps   bool // offer 'a pending timer fires although goroutines are runnable' as an alternative
+	exitedKey     uint64 // state-key contribution of goroutines that have exited (removed from gs)
+	CollectKeys   bool
+	invariant     func() string // evaluated by the scheduler in every quiescent state
+	TimeJumps     bool          // offer 'a pending timer fires although goroutines are runnable' as an alternative
 }
 
 var cur atomic.Pointer[Exec]
@@ -820,9 +820,9 @@ var Poisoned atomic.Bool
 
 // Config of one execution.
 type Config struct {
-	Horizon  time.Duration
-	MaxSteps int
-	Trace    bool
-	Keys     bool
+	Horizon   time.Duration
+	MaxSteps  int
+	Trace     bool
+	Keys      bool
 	TimeJumps bool
 }
